@@ -49,17 +49,23 @@ THEOREMS = [
     "Verif.C11.mkModel_ok_iff",
 ]
 RULE = (
-    "corpus + exhaustive option matrix (hydro x axial x distance{None,near limit,far} x viscosity{given,derived} x "
-    "fast sensor x drag override x fixed diode{none,f,alpha,both}) with two (fc,D,errors) each, for passive results, "
-    "spectrum values and (non-axial) active results + seeded random cases over the property's box (bead 0.2-8 um, "
-    "10-60 C, fc 300-6000 Hz, D over 3 decades, f_diode 5-20 kHz, alpha 0.1-0.8, distances from the validity limit "
-    "to 20 radii) + FixedDiodeModel routing with 0-3 parameters for every fixed pattern + analytical Lorentzian fit "
-    "on exact Lorentzians (rational grids), noisy and non-Lorentzian spectra (fall-back branches) + malformed "
-    "stream (invalid constructor arguments on both sides of every validity limit, wrong parameter counts). "
-    "EXPLORATION (not proof): fit_power_spectrum on synthetic spectra inside the conditioning box, "
-    "estimate_driving_input_parameters on noisy sinusoids. Non-trivial: the model was constructed and the "
-    "identities were evaluated on finite numbers (passive/active/psd), a routing with at least one fixed or one "
-    "fitted position, a non-singular analytical fit, a rejected malformed input, a converged exploration fit."
+    "corpus (7 representative + the open finding F-C11-1) + exhaustive option matrix (hydro x axial x distance{None, at the "
+    "validity limit, far} x viscosity{given, derived from T} x fast sensor x drag override x fixed diode{none, f, alpha, both}) "
+    "with two (fc, D, errors) each for passive results, one spectrum value and (non-axial) one active calibration on synthetic "
+    "signals + seeded random configurations over the property's box (bead 0.2-8 um incl. both ends, 10-60 C and the "
+    "constructor's 5-90 C, viscosity 3.1e-4-1e-2 or derived, distances from the validity limit to 20x, densities 100-3000, "
+    "fc 300-6000 Hz, D over 6 decades, f_diode 5-20 kHz, alpha 0.1-0.8, errors 1e-4-0.2 relative; quick 3000 / thorough "
+    "30000 passive, 200/2000 active on synthetic stage+detector signals of 1-5 s) + FixedDiodeModel routing for every "
+    "fixed pattern with 0-3 supplied values (valid, broadcast, shape errors) + analytical Lorentzian fit on exact "
+    "Lorentzians on rational grids (2-250 points) and on noisy / rising / flat / steeper-than-Lorentzian spectra (both "
+    "fall-back branches) + malformed stream (constructor arguments on both sides of every validity limit, invalid fixed "
+    "diode values, wrong parameter counts). EXPLORATION (not proof): fit_power_spectrum on synthetic spectra inside the "
+    "conditioning box 3 f_min <= fc <= 0.3 f_diode (noise-free: recovery to 1e-7; gamma noise of the block size: 10 sigma "
+    "+ 0.1 %, chi^2/dof ~ 1; block sizes 20-2000; bias correction on/off), calibrate_force on synthetic time series "
+    "(passive and active, public path incl. drag=, fixed_diode=, fixed_alpha=), estimate_driving_input_parameters on "
+    "noisy sinusoids. Non-trivial: the model was constructed and every reported number is finite (identities evaluated), "
+    "a routing case, a non-singular analytical fit, a rejection of a configuration outside the documented domain, a "
+    "completed exploration fit."
 )
 TRUSTED = [
     "RealLike formulas are proved over the reals and executed at Float: rounding is not modelled, the comparison "
@@ -80,7 +86,8 @@ ASSUMPTIONS = [
 KB = 1.380649e-23
 SAMPLE_RATE = 78125.0
 
-_cache = {}
+_cache = {}  # per-run results of the implementation that later ops/oracle calls need (small dicts)
+_sig_cache = {}  # synthetic signals (large arrays, bounded)
 
 
 def _lk():
@@ -176,15 +183,15 @@ def build_model(o, fixed, active=None):
 def signals(a):
     """deterministic synthetic stage + detector signals of an active calibration (noise from the case's subseed)"""
     key = ("sig", a["rate"], a["n"], a["f"], a["amp_um"], a["phase"], a["noise_um"], a["volts_amp"], a["volts_noise"], a["subseed"])
-    if key in _cache:
-        return _cache[key]
+    if key in _sig_cache:
+        return _sig_cache[key]
     g = np.random.default_rng(a["subseed"])
     t = np.arange(a["n"]) / a["rate"]
     drive = a["amp_um"] * np.sin(2 * np.pi * a["f"] * t + a["phase"]) + 3.7 + a["noise_um"] * g.standard_normal(a["n"])
     volts = a["volts_amp"] * np.sin(2 * np.pi * a["f"] * t + a["phase"] - 0.4) + a["volts_noise"] * g.standard_normal(a["n"])
-    if len(_cache) > 64:
-        _cache.clear()
-    _cache[key] = (drive, volts)
+    if len(_sig_cache) > 16:
+        _sig_cache.clear()
+    _sig_cache[key] = (drive, volts)
     return drive, volts
 
 
@@ -990,6 +997,12 @@ def tags(case, r):
     t = {"op": case["op"]}
     if "o" in case:
         t["branch"] = branch_of(case["o"])
+        t["hydro"] = bool(case["o"]["hydro"])
+    if case["op"] in ("fit", "calib"):
+        # mechanism of finding F-C11-1: the optimiser ends on the lower bound fc = 0 (a local minimum)
+        info = _cache.get((case["op"], case_key(case)))
+        t["explored_fit"] = True
+        t["fc_collapsed_to_lower_bound"] = bool(info is not None and info["fc"] < 1e-6 * case["fc"])
     return t
 
 
